@@ -420,6 +420,7 @@ typedef struct {
 	                             poly1305_ctmul32, EC all_m15, RSA/ECDSA i15); 2 table-based / 32-bit set (aes_big, des_tab, ghash_ctmul, poly1305_ctmul, EC all_m31, i31); 3 64-bit set (aes_ct64, ghash_ctmul64, poly1305_ctmulq) */
 	int ta_plain_names;       /* server, client_auth: br_ssl_server_set_trust_anchor_names instead of _alt */
 	const unsigned char *inject_bytes;   /* with inject_entropy: 32 bytes to inject instead of seed[] */
+	int only_curve;           /* 0: every curve of the EC implementation; else the single curve (BR_EC_*) the engine may use */
 	int chain_kind;           /* own chain: 0 the single certificate; 1 leaf + intermediate; 2 a 21 kB leaf + intermediate (Certificate
 	                             message larger than a record); 3 leaf + the root itself.  RSA server key: all; EC key with RSA-signed
 	                             certificate and RSA client certificate: 1; ignored elsewhere (see tp_chain_of) */
@@ -447,6 +448,7 @@ typedef struct {
 	size_t tx_done, rx_done;
 	int ever_sendapp, ever_recvapp;
 	int closed_kx_seen;
+	br_ec_impl ec_only;                /* copy of the engine's EC implementation restricted to cfg.only_curve */
 	size_t pending_ack;      /* bytes handed to the transport but not yet acknowledged to the engine (completion-style I/O) */
 	const unsigned char *in_hi, *out_lo;   /* engine-split single buffer: highest end of an input region / lowest start of an output region seen */
 	size_t bytes_out, bytes_in;        /* record bytes moved */
@@ -643,6 +645,14 @@ tp_ep_start(tp_ep *ep, const tp_cfg *cfg)
 			br_ssl_engine_set_ec(e, &br_ec_prime_i31);
 			if (cfg->role == 0) br_ssl_client_set_rsapub(ep->cc, &br_rsa_i32_public);
 			break;
+		}
+	}
+	if (!reuse && cfg->only_curve) {
+		const br_ec_impl *cur = br_ssl_engine_get_ec(ep->eng);
+		if (cur != NULL && ((cur->supported_curves >> cfg->only_curve) & 1)) {
+			ep->ec_only = *cur;
+			ep->ec_only.supported_curves = (uint32_t)1 << cfg->only_curve;
+			br_ssl_engine_set_ec(ep->eng, &ep->ec_only);
 		}
 	}
 	if (cfg->vmin != 0) {
